@@ -147,6 +147,32 @@ def propagateDraws (k : EngKind) (r : Option Stream) : Except Err (List TDraw) :
     | none => .ok [⟨.numpyGlobal, .noise⟩]
   | _ => .ok []
 
+/-- the integrator classes of turtlemd a `[engine] integrator.class` can name -/
+inductive TmdIntegrator
+  | verlet | velocityVerlet | langevinOverdamped | langevinInertia
+deriving Repr, DecidableEq
+
+/-- does the constructor take the keyword `seed`?  (`Verlet(timestep)`, `VelocityVerlet(timestep)`,
+    `LangevinOverdamped(timestep, gamma, rgen, beta)`, `LangevinInertia(timestep, gamma, beta, rgen=None, seed=0)`) -/
+def TmdIntegrator.acceptsSeed : TmdIntegrator → Bool
+  | .langevinInertia => true
+  | _ => false
+
+/-- what `TurtleMDEngine._propagate_from` does up to the construction of the integrator -/
+inductive TmdOutcome
+  | ran (tr : List TDraw)          -- the integrator is built with `seed=` the value drawn: the MD runs
+  | typeError (tr : List TDraw)    -- `self.integrator(timestep=…, **settings, seed=seed)` raises TypeError AFTER the draw
+  | noRgen                          -- ValueError "Missing random generator!"
+deriving Repr, DecidableEq
+
+/-- `seed = self.rgen.integers(0, 1e9)` comes first for EVERY integrator class (`propagateDraws .turtlemd`); only
+    then the constructor call decides whether the job goes on.  `JobDraws.runJob` with `.turtlemd` is the trace of an
+    integrator class that accepts `seed=`. -/
+def tmdPropagate (i : TmdIntegrator) (r : Option Stream) : TmdOutcome :=
+  match r with
+  | none => .noRgen
+  | some s => if i.acceptsSeed then .ran [⟨.stream s, .seed 1000000000⟩] else .typeError [⟨.stream s, .seed 1000000000⟩]
+
 def engDraws (k : EngKind) (c : EngCall) (r : Option Stream) : Except Err (List TDraw) :=
   match c with
   | .modvel => modvelDraws k r
